@@ -109,6 +109,9 @@ STATEMENT_STATUS: Dict[str, str] = {
     "header_ignored": "proved: the FontFile bytes have no influence unless the font is non-Type3, non-standard-14 and "
                       "has no Encoding entry",
     "exampleHeader_puts / put_underflow_ignored / odd_dict_raises": "proved by kernel evaluation of the tokeniser model on concrete headers",
+    "type3_matrix_usable / type3_matrix_default / type3_scale_default": "proved: PDFType3Font's FontMatrix handling (model type3Matrix, "
+        "constants regenerated from the source): six numbers are taken as they are, anything else (absent, not an array, other "
+        "length, non-number element) gives 1/1000; the driver receives the entry as written to the file",
     "width_in_range / width_out_of_range": "proved: inside FirstChar..FirstChar+len(Widths)-1 the advance is the Widths entry x scale "
                                            "whatever else the font says; outside (or without Widths) it is the standard-14 metric of "
                                            "the code's character, else MissingWidth, x scale (LastChar is not consulted)",
@@ -607,10 +610,18 @@ def font_line(fs: Dict[str, Any]) -> str:
         else:
             data_, l1 = type1_header(ff)
             ws += ["F", "-" if l1 is None else str(l1), C.hx(data_)]
-    if fs["fm"] is None:
-        ws += ["M", "none"]
+    # the FontMatrix entry as it is written to the file; the MODEL decides whether it is usable (type3Matrix)
+    if fs["fm"] is not None:
+        ws += ["M", "["] + [C.frac_str(F(x)) for x in fs["fm"]] + ["]"]
+    elif fs.get("t3_badmatrix") is not None and fs["subtype"] == "Type3":
+        bm = fs["t3_badmatrix"]
+        if isinstance(bm, list):
+            ws += ["M", "["] + [C.frac_str(F(x)) if isinstance(x, (int, F)) or (isinstance(x, str) and "/" in x) else "x"
+                                for x in bm] + ["]"]
+        else:
+            ws += ["M", "notlist"]
     else:
-        ws += ["M"] + [C.frac_str(F(x)) for x in fs["fm"]]
+        ws += ["M", "none"]
     return " ".join(ws)
 
 
@@ -1297,7 +1308,8 @@ def gen_font(rng, force: Optional[str] = None) -> Tuple[Dict[str, Any], List[str
     if is_t3 and rng.random() < 0.08:
         kinds.append("t3:no-matrix")
         if rng.random() < 0.5:
-            fs["t3_badmatrix"] = rng.choice([[1, 0, 0], "Foo", [1, 0, 0, "x", 0, 0], []])
+            fs["t3_badmatrix"] = rng.choice([[1, 0, 0], "Foo", [1, 0, 0, "x", 0, 0], [], [2, 0, 0, 2, 0, 0, 0],
+                                             [2, 0, 0, 2, 0], ["x", 0, 0, 1, 0, 0], [1, 0, 0, 1, 0, "x"]])
             kinds.append("t3:bad-matrix")
         fs["t3_nobbox"] = rng.random() < 0.5
     elif is_t3:
@@ -1736,6 +1748,19 @@ def run_fonts(ctx: C.Ctx) -> None:
             fonts.append((fs, ["font:plain"]))
     for _ in range(ctx.n(750, 10000)):
         fonts.append(gen_font(rng))
+    # Type3 fonts with every kind of unusable FontMatrix entry (model `type3Matrix`, theorems type3_matrix_*)
+    for bm in ([1, 0, 0], "Foo", [1, 0, 0, "x", 0, 0], [], [2, 0, 0, 2, 0, 0, 0], [2, 0, 0, 2, 0], ["x", 0, 0, 1, 0, 0],
+               [1, 0, 0, 1, 0, "x"], [0, 0, 0, 0, 0, 0]):
+        for _ in range(ctx.n(2, 20)):
+            fs, kinds = gen_font(rng, force="Type3")
+            fs["fm"] = None
+            fs["t3_badmatrix"] = bm
+            tag = "notlist" if not isinstance(bm, list) else "len%d%s" % (len(bm), "+nonnumber" if "x" in bm else "")
+            if bm == [0, 0, 0, 0, 0, 0]:
+                fs["fm"] = ["0", "0", "0", "0", "0", "0"]
+                fs.pop("t3_badmatrix")
+                tag = "zero-matrix-usable"
+            fonts.append((fs, [k for k in kinds if not k.startswith("t3:")] + ["t3:matrix-entry:" + tag]))
     # fonts whose built-in encoding (the bytes of the embedded Type 1 header) is what decides the text
     n_builtin = 0
     while n_builtin < ctx.n(200, 3000):
